@@ -17,7 +17,7 @@ CHECKS = {
    text="Bracketed transaction tokens (begin, any mutator incl. clear/entry ops/out-of-range-free ops, rollback, commit, drop, or the sequence simply ending inside the transaction) with subscriber polls and subscriber drops allowed inside, full alphabet to depth 4 (quick) / 5 (thorough) and reduced alphabet to depth 6 / 8, capacities 16 and 1, with and without subscribers. Nothing may be published while a transaction is open or after it is abandoned, contents must be untouched by abandoned work, Deref of the transaction must show the working copy, a commit publishes one non-empty message taking pre to post, nothing if nothing was recorded.",
    note="a transaction's clear() on an empty working copy may or may not record a Clear (DESIGN 8)"),
  "C08": dict(design="5 (C08)", tech=SEQ,
-   text="Every history (reduced alphabet depth 6/7, full alphabet depth 3/4; capacities 1, 2, 16; plain and batched; manual and eager polling) followed by dropping the vector, as a token at any point and as the epilogue of every sequence; every stream is then polled to its end. No stream may end while the vector lives, after the drop everything pending (or a Reset to the final state) is delivered before None, the replica at None equals the final contents, and the waker of a Pending subscriber is woken by the drop. The evidence counts the four situations (up to date / mid-batch / behind within capacity / behind beyond capacity) separately.",
+   text="Every history (reduced alphabet depth 6/7, full alphabet depth 3/4; capacities 1, 2, 16; plain and batched; manual and eager polling) followed by dropping the vector, as a token at any point and as the epilogue of every sequence; every stream is then polled to its end. No stream may end while the vector lives, after the drop everything pending (or a Reset to the final state) is delivered before None, the replica at None equals the final contents, and the waker of a Pending subscriber is woken by the drop. The evidence counts the four situations (up to date / mid-batch / behind within capacity / behind beyond capacity) separately. Runs of 34 / 70 updates pending at the drop (capacity 128) and, on the pause-point build (mc_pause), sender operations inside a poll followed by the drop are covered as well.",
    note="found the lost-final-state defect repaired by repo commit 57072f3 (see known_findings.json)"),
  "C17": dict(design="5 (C17)", tech=SEQ,
    text="Every mutator of ObservableVector and of the transaction with every in-range argument and with out-of-range indices len, len+1, len+2 (under catch_unwind: must panic, contents unchanged, nobody notified), depth 4 (quick) / 5 (thorough) from initial lengths 0..3, compared call by call with a plain Vec model (return values and contents). Traversal: every decision vector keep/set/remove/set-then-remove/stop over vectors of length 0..4 (5 thorough) through for_each and entries(), directly and inside a transaction: each element visited once in order, index() equals the current position, removal does not skip the successor, contents and emitted diffs equal the model's.",
@@ -87,7 +87,7 @@ def main():
       "engines": [
         {"name": "loom", "path": "lm", "serves_properties": ["C02", "C03", "C04"],
          "kind_free_text": "loom DPOR exploration of all thread interleavings of small concurrent programs on the real sync-flavour code compiled against loom-backed Arc/Weak/RwLock stand-ins (cfg eyeball_verif)"},
-        {"name": "seqmc+pause-points", "path": "mcp", "serves_properties": ["C06"],
+        {"name": "seqmc+pause-points", "path": "mcp", "serves_properties": ["C06", "C08"],
          "kind_free_text": "the same explorer on eyeball-im built with the pause hooks: sender operations are executed inside the subscriber's poll, at enumerated pause points"},
         {"name": "seqmc", "path": "mc", "serves_properties": sorted(CHECKS.keys()),
          "kind_free_text": "explicit enumeration of all operation/poll/configuration sequences up to a depth bound, executed on the real objects next to a reference model (stateless re-execution, iterative deepening, 16 workers)"},
